@@ -288,8 +288,14 @@ def geometry(desc, node=None):
         for b in (node["outer"], node["inner"]):
             if b["kind"] != "cross":
                 raise Unsupported("Nest of anything but CrossBlocks")
-            if _min_trials(b["constraints"]):
-                raise Unsupported("Nest of blocks with MinimumTrials")
+        if _min_trials(node["outer"]["constraints"]):
+            raise Unsupported("Nest whose outer block has MinimumTrials")
+        if _min_trials(node["inner"]["constraints"]):
+            # main.rst: the outer block is scaled by "the number of trials in inner_block"; with a MinimumTrials that is a whole
+            # number of weighted crossing rounds the inner run is unambiguous, otherwise chunks and runs disagree (docs silent)
+            ci = gi["crossings"][0]
+            if gi["T"] != ci["size"] * ci["cw"]:
+                raise Unsupported("Nest whose inner block has a MinimumTrials that leaves a partial round")
         if any(c["preamble"] for c in go["crossings"] + gi["crossings"]):
             raise Unsupported("Nest with preamble trials (docs only define the preamble-free length)")
         inner_len = gi["T"]
